@@ -551,7 +551,7 @@ func genSatCase(t *rapid.T) SatCase {
 		c.Op = rapid.SampledFrom(operators).Draw(t, "op")
 	}
 	if rapid.IntRange(0, 9).Draw(t, "nk") == 0 {
-		c.N = rapid.SampledFrom([]string{"", "abc", "1 2", "a:1", ":1", "1:", "-1:2", "1_0", "v1.0", "99999999999999999999:1", " ", "1.0 beta"}).Draw(t, "badn")
+		c.N = rapid.SampledFrom([]string{"", "abc", "1 2", "a:1", ":1", "1:", "-1:2", "1_0", "v1.0", "99999999999999999999:1", " ", "1.0 beta", "1:-1", "1:-", "0:-5", "3:-1.0~rc1", "-", "-1", ":", "0:", "1:-a", "1::2", "1: 2", "1 :2", "1.0:2", "٣:1", "1:٣", "1:2 3", "~1", ".1", "+1"}).Draw(t, "badn")
 		c.OK = false
 		c.V = genVerParts(t, "v")
 		c.K = "unparsable-N"
